@@ -24,7 +24,7 @@ def specs(ctx):
 
 
 def run(ctx):
-    drivercheck.design(ctx)
+    drivercheck.design(ctx, wide=True)
     drivercheck.run_traces(ctx, specs(ctx), PREFIX)
     return ctx.finish("model_checking", RULE)
 
